@@ -46,6 +46,12 @@ func (c *Softmax) forward(x tensor.Tensor) (y tensor.Tensor, err error) {
 		return
 	}
 
+	// keep the reduced dimension so that the sums align with 'Dim' when dividing
+	s, err = s.UnSqueeze(c.dim)
+	if err != nil {
+		return
+	}
+
 	return x.Div(s)
 }
 
